@@ -9,8 +9,8 @@ import json, os, re, subprocess, sys, time, hashlib, resource, shutil, concurren
 
 VERIF = os.path.dirname(os.path.dirname(os.path.abspath(__file__)))
 REPO = os.environ.get("VERIF_REPO", "/repo")
-CACHE = os.path.join(VERIF, ".cache")
-OUT = os.path.join(VERIF, "out")
+CACHE = os.environ.get("VERIF_CACHE") or os.path.join(VERIF, ".cache")
+OUT = os.environ.get("VERIF_OUT") or os.path.join(VERIF, "out")
 GUARD = "PMODELS_ARGOBOTS_VERIF"
 
 INC = ["-I%s/src/include" % REPO, "-I%s/src" % REPO, "-I%s/src/pool" % REPO,
@@ -488,7 +488,8 @@ def run_property(prop, mod, tier, only=None, jobs=None):
         "violations": violations,
     }
     # partial runs (--only) must not overwrite the evidence of the full check
-    evdir = os.path.join(VERIF, "evidence") if not only else os.path.join(OUT, "evidence_partial")
+    # (VERIF_EVIDENCE_DIR: runs against a scratch copy of the repository -- the seeded-change matrix -- keep their results out of /verif/evidence)
+    evdir = os.environ.get("VERIF_EVIDENCE_DIR") or (os.path.join(VERIF, "evidence") if not only else os.path.join(OUT, "evidence_partial"))
     os.makedirs(evdir, exist_ok=True)
     with open(os.path.join(evdir, prop + ".json"), "w") as f:
         json.dump(ev, f, indent=1)
